@@ -331,8 +331,83 @@ def check(run: Run) -> None:
             R.k2_precede(run, "C11.g", fl, R.call_is(name="record_removed_leaf_paths"), rm, f"{fd.name}: the changing paths are recorded before the swap-remove")
         run.sites(n, 1, "swap-remove call sites")
 
+    with run.obligation("C11.h", "K1", "the zero takes part in the published fold exactly while fewer than two elements are live (empty: the result IS the zero; one element: "
+                        "it is folded with the zero): when the zero input is re-pointed to another producer in that state the tree is rebuilt so the root binds the new "
+                        "zero - evaluated over the live-element count 0..3"):
+        fa = R.fn(run, "src/hgraph/runtime/reduce_node.cpp", "reduce_reconcile")
+        cn = R.Canon()
+        decl = [d for d in R.find(fa, lambda n: isinstance(n, C.Declarator) and n.name == "zero_affects_structure" and n.init is not None)]
+        if len(decl) != 1:
+            raise AnalysisError("anchor-vanished", f"C11.h: zero_affects_structure declared {len(decl)} times in reduce_reconcile")
+
+        def ev(e, n, flags):
+            if isinstance(e, C.Binary) and e.op in ("&&", "||"):
+                l, r = ev(e.l, n, flags), ev(e.r, n, flags)
+                return (l and r) if e.op == "&&" else (l or r)
+            if isinstance(e, C.Unary) and e.op == "!":
+                return not ev(e.e, n, flags)
+            if isinstance(e, C.Binary) and e.op in ("<", "<=", ">", ">=", "==", "!="):
+                l, r = ev(e.l, n, flags), ev(e.r, n, flags)
+                return {"<": l < r, "<=": l <= r, ">": l > r, ">=": l >= r, "==": l == r, "!=": l != r}[e.op]
+            if isinstance(e, C.Lit):
+                try:
+                    return int(re.sub(r"[uUlLzZ]+$", "", e.text))
+                except ValueError:
+                    raise AnalysisError("model-mismatch", f"C11.h: literal {e.text}")
+            if isinstance(e, C.Call) and isinstance(e.fn, C.Member) and cn(e.fn.obj).endswith("dense_to_key"):
+                if e.fn.name == "size":
+                    return n
+                if e.fn.name == "empty":
+                    return n == 0
+            if isinstance(e, C.Id) and e.name in flags:
+                return flags[e.name]
+            if isinstance(e, C.Init) and len(e.elems) == 1:
+                return ev(e.elems[0], n, flags)
+            raise AnalysisError("model-mismatch", f"C11.h: cannot evaluate `{cn(e)}` in zero_affects_structure")
+        bad = []
+        for n in range(0, 4):
+            for zr in (False, True):
+                run.evaluations += 1
+                got = ev(decl[0].init, n, {"zero_repointed": zr})
+                if got != (zr and n <= 1):
+                    bad.append((n, zr, got))
+        run.count(1, "C11.h")
+        if bad:
+            run.finding("C11.h", "reduce_reconcile:zero-repoint-rebuild-condition", f"zero_affects_structure = {cn(decl[0].init)} differs from `zero re-pointed and fewer than two "
+                        f"live elements` at (live elements, zero re-pointed) -> {[(n, zr) for n, zr, _ in bad]}: the root keeps its binding to the OLD zero source", loc=fa.loc(decl[0]))
+        # the flag reaches both the rebuild decision and the full-structure request
+        conds = [cn(i.cond) for i in R.find(fa, lambda n: isinstance(n, C.If)) if any(R.callee_name(c) == "rebuild_structure" for c in R.calls(i.then))]
+        if not conds or "zero_affects_structure" not in conds[0]:
+            run.finding("C11.h", "reduce_reconcile:zero-repoint-does-not-rebuild", f"the rebuild decision ({conds[:1]}) ignores zero_affects_structure", loc=fa.loc(decl[0]))
+
+    with run.obligation("C11.i", "K3+K1", "the lifted fast path over a fixed TSL folds EVERY valid element whatever the order in which elements became valid: one ascending pass "
+                        "over 0..size with no early exit, an invalid element is skipped (continue), the first valid one seeds the accumulator, every later valid one is "
+                        "combined through the kernel"):
+        fa = R.fn(run, HO, "wire_lifted_reduce_tsl")
+        lam = [n_ for n_ in fa.body.walk() if isinstance(n_, C.Lambda) and R.calls(n_.body, "eval")]
+        run.sites(len(lam), 1, "lifted reduce evaluate lambda")
+        cn = R.aliases_of(fa)
+        loops_ = [l for l in lam[0].body.walk() if isinstance(l, C.For)]
+        run.sites(len(loops_), 1, "fold loop")
+        lp = loops_[0]
+        sh = R.loop_shape(lp, cn)
+        run.count(1, "C11.i")
+        if sh.get("init") != "0" or sh.get("cond_op") != "<" or not sh.get("cond_r", "").endswith("size()") or sh.get("step") != "++" or sh["breaks"] or sh["returns"] \
+                or sh.get("body_writes_var"):
+            run.finding("C11.i", "wire_lifted_reduce_tsl:fold-loop-shape", f"the fold does not visit every element of the list exactly once: {sh}", loc=fa.loc(lp))
+        # skip-invalid guard: `if (!item.valid()) continue;` - the invalid arm must neither seed nor combine
+        guards = [i for i in lp.body.stmts if isinstance(i, C.If) and re.sub(r"\s", "", R.Canon()(i.cond)) in ("!item.valid()", "!list[i].valid()")]
+        if len(guards) != 1 or not any(isinstance(x, C.Continue) for x in guards[0].then.walk()) or R.calls(guards[0].then):
+            run.finding("C11.i", "wire_lifted_reduce_tsl:invalid-element-not-skipped", "an invalid element must be skipped with `continue` (and nothing else) before the "
+                        "accumulator is touched", loc=fa.loc(lp))
+        elif lp.body.stmts.index(guards[0]) > min([k for k, st in enumerate(lp.body.stmts) if any(R.callee_name(c) in ("emplace", "eval") for c in R.calls(st))] or [99]):
+            run.finding("C11.i", "wire_lifted_reduce_tsl:guard-after-use", "the validity guard must come before the element is used", loc=fa.loc(lp))
+
 
 VARIANTS = [
+    {"id": "i-lifted-fold-stops-at-first-invalid", "expect": "C11.i", "edits": [{"file": "include/hgraph/lib/std/operators/impl/higher_order_impl.h", "find": "                    auto item = list[i];\n                    if (!item.valid()) { continue; }\n                    if (!accumulator.has_value())", "replace": "                    auto item = list[i];\n                    if (!item.valid()) { break; }\n                    if (!accumulator.has_value())"}]},
+    {"id": "h-zero-repoint-ignored-for-singleton", "expect": "C11.h", "edits": [{"file": "src/hgraph/runtime/reduce_node.cpp", "find": "                zero_repointed && storage.dense_to_key.size() <= 1;", "replace": "                zero_repointed && storage.dense_to_key.empty();"}]},
+    {"id": "h-twin-size-less-than-two", "expect": None, "edits": [{"file": "src/hgraph/runtime/reduce_node.cpp", "find": "                zero_repointed && storage.dense_to_key.size() <= 1;", "replace": "                zero_repointed && storage.dense_to_key.size() < 2;"}]},
     {"id": "g-last-leaf-one-too-far", "expect": "C11.g", "edits": [{"file": RED, "find": "            const std::size_t last = storage.dense_to_key.size() - 1;\n            storage.structural_leaves.push_back(leaf);", "replace": "            const std::size_t last = storage.dense_to_key.size();\n            storage.structural_leaves.push_back(leaf);"}]},
     {"id": "f-slot-gets-dense-index", "expect": "C11.f", "edits": [{"file": RED, "find": "                    storage.dense_to_key.push_back(std::move(key));\n                    storage.dense_to_source_slot.push_back(index);\n                    storage.dense_to_source_handle.push_back(\n                        effective_output_handle(child.bound_output()));", "replace": "                    storage.dense_to_key.push_back(std::move(key));\n                    storage.dense_to_source_slot.push_back(dense_leaf);\n                    storage.dense_to_source_handle.push_back(\n                        effective_output_handle(child.bound_output()));"}]},
     {"id": "b2-modified-leaves-skipped-on-rebuild", "expect": "C11.b2", "edits": [{"file": RED, "find": "            if (!full_scan && collection_event &&\n                context.collection_ops->available(collection_input))", "replace": "            if (!full_scan && !rebuilt && collection_event &&\n                context.collection_ops->available(collection_input))"}]},
